@@ -33,6 +33,9 @@ def run(ctx, rep):
     # packet decodes to cannot depend on which bytes happen to be buffered behind it (R4.2, shared with C04)
     from props import c04
     c04.decode(ctx, rep)
+    # ... and the length it announces is a function of the size byte alone (value, range, progress): a length test against
+    # anything else - how much happens to be buffered - makes the result depend on segmentation (R4.1, shared with C04)
+    c04.decode_length(ctx, rep)
     rep.floor("R5.1", 3 * len(net.impls_present(ctx)))
     rep.floor("R5.3", 4 * len(net.impls_present(ctx)))
 
